@@ -478,6 +478,44 @@ func runC10(c *core.Ctx) error {
 	if err := c07Batch(c, cases, "C10"); err != nil {
 		return err
 	}
+	// walks through InterpretAs clauses with reifiers that change the KIND of the node (a container collapses into a
+	// scalar, a scalar grows into a list), hide part of it, fail, or answer nothing - in front of every kind of
+	// continuation: whatever a reifier answers, the walk ends with visits or an error
+	for i := 0; i < c.Pick(400, 30000); i++ {
+		r := c.Rand
+		g, err := core.GenGraph(r, r.Intn(4))
+		if err != nil {
+			return err
+		}
+		mm := func(k string, v core.Val) core.Val { return core.Map(core.KV{K: []byte(k), V: v}) }
+		as := func(x core.Val) core.Val {
+			return mm("~", core.Map(core.KV{K: []byte("as"), V: core.Str("someadl")}, core.KV{K: []byte(">"), V: x}))
+		}
+		all := func(x core.Val) core.Val { return mm("a", mm(">", x)) }
+		match := mm(".", core.Map())
+		conts := []core.Val{match, all(match), core.SelAll(), mm("r", core.Map(core.KV{K: []byte("^"), V: core.Int(0)}, core.KV{K: []byte("$"), V: core.Int(2000)}, core.KV{K: []byte(">"), V: match})),
+			mm("|", core.List(match, all(match))), mm("f", mm("f>", core.Map(core.KV{K: []byte("a"), V: match}, core.KV{K: []byte("0"), V: match}))), mm("i", core.Map(core.KV{K: []byte("i"), V: core.Int(0)}, core.KV{K: []byte(">"), V: match})), c10Selector(r, g, 1)}
+		spec := as(conts[r.Intn(len(conts))])
+		switch r.Intn(4) {
+		case 0:
+			spec = all(spec)
+		case 1:
+			spec = mm("|", core.List(match, all(spec)))
+		case 2:
+			spec = all(all(spec))
+		}
+		kind := []string{"collapse", "hide", "fail", "nil", "scalar-to-list", "collapse"}[r.Intn(6)]
+		w := core.WalkCfg{ReifyKind: kind}
+		for _, matching := range []bool{false, true} {
+			obs := core.RunWalk(g, spec, w, matching)
+			if obs.Outcome == "panic" {
+				c.Fail("C10/walk-panics", core.Replay{Kind: "oracle", Case: "walk.reified " + kind + " " + walkLine(g, spec, core.WalkCfg{}), Impl: obs.String(), Expected: "visits or an error",
+					Detail: "a selector that compiled, walked with a reifier registered for its InterpretAs clause"})
+			}
+		}
+		c.Count("walk.reified "+kind+" "+walkLine(g, spec, core.WalkCfg{}), true)
+		c.Dist("reified-walk:" + kind)
+	}
 	// ParsePath / Get on arbitrary strings
 	for i := 0; i < c.Pick(1000, 50000); i++ {
 		s := string(core.GenStrBytes(c.Rand, core.GenCfg{})) + []string{"", "/", "//", "/a/", "\x00/\xff"}[c.Rand.Intn(5)]
